@@ -287,7 +287,9 @@ FILE_TRUST = ["the container-reader model (AvroModel/File.lean) is hand-written 
               "compress/flate, golang/snappy, hash/crc32 and the schema JSON parser + Schema.Codec are parameters of the model (Ext); the harness calls the "
               "decompression libraries directly and hands their verdict per payload to the model",
               "the record decoder is the codec model's `read` (C03/C04) into the zero value of the Go type (typedmemclr + codec.Read)",
-              "readN's chunked reading (1 MiB chunks) is modelled as such; memory consumption is outside the model (the harness measures it for unbacked declared lengths)"]
+              "readN's chunked reading (1 MiB chunks) is modelled as such; memory consumption is outside the model (the harness measures it for unbacked declared lengths)",
+    "the snappy block format as modelled in AvroModel/Snappy.lean for the D34 guard (element sizes from the format description, not derived from the snappy library sources); tied from the other side by best-ratio blocks written and read back by the real library",
+]
 PROPS["C07"] = {
     "lean_modules": ["AvroModel.Props.C07", "AvroModel.Props.C07b"],
     "required_theorems": ["snappy_guard_accepts_valid", "delivers", "callback_error", "callback_error_count", "sync", "crc", "inflate", "damaged_block", "snappy_short",
